@@ -7,7 +7,7 @@ from .. import scenario
 ID = "C04"
 LEVEL = "exploration"
 RULE = ("five case families: (0) SIZE boundaries of the file format - string literals of 250 ... 70 000 bytes around every power of two, functions capturing up to 300 variables, files with up to 1 200 functions, names of 1 000 characters, class and method names (function labels) of up to 300 characters, jumps over 12 000 statements, literals with 1 000 elements, 250 parameters - each with a computed expected output; (0b) REPEATED LABELS - same-named classes in two function bodies, in the if and the else block, at module level and inside a function, same-named inner functions and methods, with the first, the second or both in use (differential only); (1) every .ms file of the repository's example corpus as entry point of a copy of its directory; "
-        "(1b) a RECOMPILE family: the same programs compiled into a directory that already holds the bytecode of an earlier, longer program under the same file name (the edit / recompile cycle); "
+        "(1a) a FIRST-STATEMENT family: every looping / branching statement as the first statement of a program and of a function body of every kind (parameterless, with a parameter, void, closure, method, constructor, callback, function in a list); (1b) a RECOMPILE family: the same programs compiled into a directory that already holds the bytecode of an earlier, longer program under the same file name (the edit / recompile cycle); "
         "(2) programs from the generators of C01, C07, C08, C12, C13, C15 and the two-module failing programs of C17 "
         "(Hypothesis); (3) 80 string VALUES that read like tokens of another lexical class (numbers in every spelling, booleans, keywords, instruction / register / label names, paths, comment openers); every ASCII character (0-127) and seven further code points alone, doubled, embedded and next to a quote / backslash / space; EXHAUSTIVELY all string literals up to length 3 (quick: + a seeded sample of length 4; thorough: all "
         "of length 4) over the alphabet {quote, backslash, space, TAB, LF, CR, n, r, t, a, e-acute, emoji, NBSP, U+3000, VT, NUL} in escaped and raw "
@@ -319,6 +319,36 @@ def label_cases():
     return out
 
 
+def first_statement_cases():
+    """every looping / branching statement as the FIRST statement of a program and of a function body of every kind (without
+    and with parameters, closure, method, constructor, callback): the first instruction of a function block is then a jump
+    target, and backward jumps reach instruction 0"""
+    firsts = {"while-true-break": "while true {\n\tprint \"in\"\n\tbreak\n}", "while-true-nested": "while true {\n\twhile true {\n\t\tbreak\n\t}\n\tbreak\n}",
+              "from-literal": "from 0 to 2 {\n\tprint \"it\"\n}", "from-counter-continue": "from 0 to 3, i {\n\tif i == 1 {\n\t\tcontinue\n\t}\n\tprint i\n}",
+              "if-else": "if 1 < 2 {\n\tprint \"then\"\n} else {\n\tprint \"else\"\n}"}
+    with_state = {"while-countdown": "while total > 10 {\n\tmodify total = total - 4\n}", "while-zero-iterations": "while total > 100 {\n\tprint \"never\"\n}",
+                  "while-break-on-state": "while true {\n\tif total > 0 {\n\t\tbreak\n\t}\n}", "while-continue": "while total > 10 {\n\tmodify total = total - 4\n\tif total > 12 {\n\t\tcontinue\n\t}\n\tprint total\n}",
+                  "from-to-state": "from 0 to total - 20, i {\n\tprint i\n}", "if-on-state": "if total > 10 {\n\tprint \"big\"\n}"}
+    ind = lambda text, n: "\n".join("\t" * n + l for l in text.split("\n"))
+    out = []
+
+    def add(name, src):
+        out.append({"family": "first-statement", "origin": "first-statement:" + name, "files": {"main.ms": src}})
+    for n, st_ in firsts.items():
+        add("program:" + n, st_ + "\nprint \"@end\"\n")
+    for n, st_ in list(firsts.items()) + list(with_state.items()):
+        pre = "total = 22\n"
+        add("function:" + n, pre + "f = fn() -> int {\n" + ind(st_, 1) + "\n\treturn total\n}\nprint f()\nprint f()\n")
+        add("function-with-parameter:" + n, pre + "f = fn(q: int) -> int {\n" + ind(st_, 1) + "\n\treturn total + q\n}\nprint f(1)\n")
+        add("void-function:" + n, pre + "f = fn() {\n" + ind(st_, 1) + "\n}\nf()\nprint total\n")
+        add("closure:" + n, pre + "mk = fn() -> fn() -> int {\n\treturn fn() -> int {\n" + ind(st_, 2) + "\n\t\treturn total\n\t}\n}\ng = mk()\nprint g()\n")
+        add("method:" + n, pre + "class K {\n\tfn m(self) -> int {\n" + ind(st_, 2) + "\n\t\treturn total\n\t}\n}\nk = K()\nprint k.m()\n")
+        add("constructor:" + n, pre + "class K {\n\tv: int\n\tconstructor(self) {\n" + ind(st_, 2) + "\n\t\tself.v = total\n\t}\n}\nk = K()\nprint k.v\n")
+        add("callback:" + n, pre + "xs: [int...] = [1, 2]\nys = xs.map(fn(x: int) -> int {\n" + ind(st_, 1) + "\n\treturn x + total\n})\nprint ys\n")
+        add("function-in-list:" + n, pre + "fs: [fn() -> int...] = [fn() -> int {\n" + ind(st_, 1) + "\n\treturn total\n}]\nh = fs[0]\nprint h()\n")
+    return out
+
+
 def recompile_cases():
     """the edit / recompile cycle: `compile` writes main.mmm over the output of an earlier, LONGER program of the same name;
     what `execute` then runs must be the new program and nothing else"""
@@ -335,7 +365,7 @@ def recompile_cases():
 
 
 def enumerated(tier, seed):
-    return corpus_cases() + size_cases() + label_cases() + recompile_cases() + string_cases(tier, seed)
+    return corpus_cases() + size_cases() + label_cases() + first_statement_cases() + recompile_cases() + string_cases(tier, seed)
 
 
 def strategy(tier):
